@@ -8,6 +8,7 @@ mod server;
 mod c10;
 mod c14;
 mod c15;
+mod c01s;
 mod c05s;
 mod c10s;
 mod c13s;
@@ -51,6 +52,7 @@ fn main() {
         "C10" => c10::run(&tier, replay.as_deref()),
         "C14" => c14::run(&tier, replay.as_deref()),
         "C15" => c15::run(&tier, replay.as_deref()),
+        "C01S" => c01s::run(&tier),
         "C05S" => c05s::run(&tier),
         "C10S" => c10s::run(&tier),
         "C13S" => c13s::run(&tier),
